@@ -78,7 +78,8 @@ var importDirStyles = [][]string{
 	{".", "a dir", "a dir/b#1", "c@x", "a dir", "c@x/D"},
 	importDirs,                       // style 3: plain names, every file is a symbolic link to a file kept elsewhere
 	{".", "a", "a/b", "c", "a", "C"}, // style 4: files and directories whose paths differ only in letter case
-	{".", "conf", "conf", "conf", "conf/sub", "conf"}, // style 5: most files share one directory
+	{".", "conf", "conf", "conf", "conf/sub", "conf"},                 // style 5: most files share one directory
+	{".", "env[prod]", "env[prod]/b*", "c?x", "env[prod]", "c?x/[d]"}, // style 6: names made of the characters of glob patterns
 }
 
 func (s impSpec) dirOf(i int) string { return importDirStyles[s.style][i] }
@@ -101,6 +102,8 @@ func (s impSpec) baseOf(i int) string {
 		return fmt.Sprintf("f %d+x.yaml", i)
 	case 4:
 		return []string{"main.yaml", "Part.yaml", "x.yaml", "Y.yaml", "part.yaml", "y.yaml"}[i]
+	case 6:
+		return []string{"main.yaml", "deploy[prod].yaml", "all*.yaml", "what?.yaml", "[a-z].yaml", "x[.yaml"}[i]
 	}
 	return fmt.Sprintf("f%d.yaml", i)
 }
@@ -705,6 +708,48 @@ func runC17(col *Collector, tier string, seed int64) {
 		}
 		specs = append(specs, s)
 		tags = append(tags, "dir+files")
+	}
+	// file and directory names made of the characters of glob patterns: an import entry is a path, taken literally
+	for n := 2; n <= 3; n++ {
+		for mask := 0; mask < 1<<uint(n*n); mask++ {
+			if n == 3 && mask%8 != 3 {
+				continue
+			}
+			edges := make([][]int, n)
+			for i := 0; i < n; i++ {
+				for j := 0; j < n; j++ {
+					if mask&(1<<uint(i*n+j)) != 0 {
+						edges[i] = append(edges[i], j)
+					}
+				}
+			}
+			specs = append(specs, impSpec{n: n, edges: edges, broken: -1, dirImp: -1, style: 6})
+			tags = append(tags, "glob-character-names")
+			specs = append(specs, impSpec{n: n, edges: copyEdges(edges), broken: 1 + mask%(n-1), kind: []string{"missing", "unparsable"}[mask%2], dirImp: -1, style: 6})
+			tags = append(tags, "glob-character-names+broken")
+		}
+	}
+	for k := 0; k < 12; k++ {
+		// chains and fans over all six names
+		edges := [][]int{{1, 2}, {3}, {4}, {5}, {}, {}}
+		if k%2 == 1 {
+			edges = [][]int{{5}, {}, {1}, {2}, {3}, {4}}
+		}
+		s := impSpec{n: 6, edges: edges, broken: -1, dirImp: -1, style: 6}
+		if k >= 2 {
+			s.broken, s.kind = 1+(k-2)%5, []string{"missing", "unparsable"}[(k/2)%2]
+		}
+		specs = append(specs, s)
+		tags = append(tags, "glob-character-names")
+	}
+	// ... and such a directory imported as a directory
+	for k := 0; k < 8; k++ {
+		s := impSpec{n: 6, edges: [][]int{{}, {}, {3}, {}, {2}, {}}, broken: -1, dirImp: []int{1, 2, 3, 5}[k%4], style: 6, dirFirst: k >= 4}
+		if k%2 == 1 {
+			s.edges[0] = []int{4}
+		}
+		specs = append(specs, s)
+		tags = append(tags, "glob-character-names+dir")
 	}
 	parallel(len(specs), 16, func(i int) { impCase(col, specs[i], tags[i]) })
 	for mask := 0; mask < 64; mask++ {
